@@ -229,7 +229,7 @@ class PlaybackController:
             self.core.tracklist._mark_unplayable(pending)
             pending = self.core.tracklist.eot_track(pending)
             count -= 1
-            if not count:
+            if count <= 0:
                 logger.info("No playable track in the list.")
                 break
 
